@@ -453,6 +453,22 @@ def run(ctx):
     d25 = [[(1 / p27, Fraction(0)), (p27, Fraction(0))], [(Fraction(1), Fraction(0)), (Fraction(1), Fraction(0))]]
     cases.append(dict(kind="directed", rel="base", n=2, A=d25, B=[[(Fraction(1), Fraction(0))], [(Fraction(2), Fraction(0))]],
                       Brd=[[(Fraction(1), Fraction(0)), (Fraction(3), Fraction(0))]], base=len(cases), full=True))
+    # directed cases: exact ties.  Two identical rows carry the largest first-column metric, so the
+    # strict `>` of the C code and the strict ltM of the model must both keep the first of them
+    # (identical rows give bitwise identical metrics in binary64); compared at column 0 only.
+    for n in (2, 3, 4, 5):
+        A = rand_matrix(rng, n, n, 6, 0)
+        i, k = sorted(rng.sample(range(n), 2))
+        big = [(Fraction(24), Fraction(0))] + [(Fraction(rng.randint(-24, 24)), Fraction(0)) for _ in range(n - 1)]
+        big[rng.randrange(1, n)] = (Fraction(24), Fraction(0))
+        A[i] = list(big)
+        A[k] = list(big)
+        for r in range(n):
+            if r not in (i, k):
+                A[r][0] = (Fraction(rng.randint(-2, 2)), Fraction(0))
+                A[r][1 + rng.randrange(n - 1)] = (Fraction(23), Fraction(1))
+        cases.append(dict(kind="tie_twin", rel="base", n=n, A=A, B=rand_matrix(rng, n, 1, 16),
+                          Brd=rand_matrix(rng, 1, n, 16), base=len(cases), full=True, twins=(i, k)))
     for c in cases:
         assert exact_in_double(c["A"]) and exact_in_double(c["B"]) and exact_in_double(c["Brd"])
 
@@ -493,7 +509,13 @@ def run(ctx):
         results.append((m_lu, m_ml, m_mr, m_mi, c_lu, c_ml, c_mr, c_mi))
         ctx.count(None, 4 if c["full"] else 2)
         singular = (m_lu["det"] == (0, 0))
-        if (c["kind"] in SING_KINDS) != singular and c["kind"] != "directed":
+        if c["kind"] == "tie_twin":
+            stats["tie_first_kept"] = stats.get("tie_first_kept", 0) + 1
+            if m_lu["piv"][0] != c["twins"][0]:
+                raise vplib.BuildError("generator: tie_twin case does not tie at column 0 in the model")
+            if c_lu["piv"][0] != m_lu["piv"][0]:
+                pivot_bad.append((idx, 1, m_lu["piv"], c_lu["piv"]))
+        if (c["kind"] in SING_KINDS) != singular and c["kind"] not in ("directed", "tie_twin"):
             if c["kind"] in SING_KINDS:
                 raise vplib.BuildError("generator: %s input is not singular in the model" % c["kind"])
         tie = first_tie_column(m_lu["cands"], zero_is_tie=(c["kind"] != "zero_row"))
